@@ -822,6 +822,16 @@ class Exec:
 
     def op_app_disconnect(self, a):
         view = self.live_view()
+        if 'sid' in a:
+            # disconnect() with an id that names no session (unknown, empty, zero)
+            c = self.world.call('disconnect', a['sid'])
+            c.sess = None
+            c.view = view
+            c.quiet = self._quiet_issue(a)
+            c.foreign_sid = True
+            c.step = len(self.actions)
+            c.settled = bool(a.get('settle', True))
+            return
         if a.get('s') is None:
             c = self.world.call('disconnect')
             c.sess = None
@@ -982,8 +992,10 @@ def server_payload(draw, s_ord, seq):
     return tag.encode() + draw(st.binary(max_size=6))
 
 
-def client_payload(draw, s_ord, seq, reactions=None):
+def client_payload(draw, s_ord, seq, reactions=None, empties_pct=0):
     tag = 'C%d.%d~' % (s_ord, seq)
+    if empties_pct and draw(st.integers(0, 99)) < empties_pct:
+        return draw(st.sampled_from([b'', b'', '', b'\x00']))      # untagged, (nearly) empty
     if reactions:
         # messages the application's handler answers itself (see Exec._react)
         k = draw(st.integers(0, 99))
@@ -1103,7 +1115,8 @@ class Drawer:
                                                               ('noise', 0)]))
         if kind == 'msg':
             self.ex.cseq += 1
-            return [4, rm.tag(client_payload(d, s.ord, self.ex.cseq, self.profile.get('reactions')))]
+            return [4, rm.tag(client_payload(d, s.ord, self.ex.cseq, self.profile.get('reactions'),
+                                              self.profile.get('untagged_empties_pct', 0)))]
         if kind == 'pong':
             return [3, rm.tag(d(st.sampled_from([None, 'probe', 'x'])))]
         if kind == 'close':
@@ -1253,6 +1266,9 @@ class Drawer:
         return {'op': 'app_burst', 's': i, 'data': data}
 
     def a_app_disconnect(self):
+        if self.draw(st.integers(0, 99)) < self.profile.get('disconnect_dead_sid_pct', 0):
+            return {'op': 'app_disconnect', 's': 0,
+                    'sid': self.draw(st.sampled_from(['', 0, 'nosuchsid', 'AAAAAAAAAAAAAAAAAAAA']))}
         if self.draw(st.integers(0, 9)) < self.profile.get('disconnect_all_pct', 1):
             return {'op': 'app_disconnect', 's': None}
         return {'op': 'app_disconnect', 's': self.session_index()}
